@@ -83,7 +83,8 @@ pub fn cli_scenario(idx: u64, t: &mut Tape) -> CliScn {
     let invalid: Option<&'static str> = match invalid_kind {
         None => None,
         Some(0) => {
-            args[2] = "nosuchgame".into();
+            // unknown ids of every shape: ordinary, empty, one byte, multi-byte, wrong case, near miss
+            args[2] = (*t.pick(CFG, &["nosuchgame", "", "x", "é", "日本", "aé", "TEAMFORTRESS2", "teamfortress", "minecraft ", "-", "🎮"])).to_string();
             Some("unknown-game")
         }
         Some(1) => {
